@@ -19,7 +19,7 @@ enum Kind {
     K_CLOCK,         // a = delta ms (may be negative)
     K_ALLOC,         // a = slot, b = family (0 new,1 new[],2 malloc,3 new nolocation,4 new[] nolocation), c = size
     K_FREE,          // a = slot
-    K_REALLOC,       // a = slot, c = size (malloc family only)
+    K_REALLOC,       // a = slot, c = size (malloc family only); b = 1: the platform realloc fails for this call
     K_EXPECT_LEAKS,  // a = n
     K_IGNORE_LEAKS,
     K_PTR_SET,       // a = target, b = value index
